@@ -242,6 +242,10 @@ func (e *c12env) peerTraffic(c net.Conn, n int) {
 		if _, err := c.Write(uidFrame(uint64(i), byte(i), 6, false, nil, 0)); err != nil {
 			return
 		}
+		// ArduPilot heartbeats from ever new senders: every one makes the reader issue 7 stream requests and an event
+		if _, err := c.Write(apHeartbeat(byte(1+i%250), byte(1+i/250%250))); err != nil {
+			return
+		}
 		time.Sleep(300 * time.Microsecond)
 	}
 }
@@ -403,6 +407,23 @@ func c12placement(rep *vh.Report, r *vh.RNG, kind, point string, k int, consumer
 		time.Sleep(time.Duration(r.Intn(8000)) * time.Microsecond)
 		reached = true
 	}
+	if len(env.udpPorts) > 0 && kind != "udp-broadcast" && point != "" {
+		// the first datagram of a NEW udp peer arriving during Close is the trigger of the known dependency crash (F9);
+		// it is explored by the random-instant closes and by TestC12Known, not by every trap placement
+		deadline := time.Now().Add(30 * time.Millisecond)
+		for time.Now().Before(deadline) {
+			found := false
+			for _, ci := range cons.openChannels() {
+				if strings.HasPrefix(ci.Label, "udp:") {
+					found = true
+				}
+			}
+			if found {
+				break
+			}
+			time.Sleep(200 * time.Microsecond)
+		}
+	}
 	if !consumerOn {
 		atomic.StoreInt32(&consStop, 1)
 		<-consStopped
@@ -544,10 +565,19 @@ func TestC12(t *testing.T) {
 	r := vh.Sub(seed, "c12")
 	prev := gomavlib.VerifSetReconnectPeriod(60 * time.Millisecond)
 	defer gomavlib.VerifSetReconnectPeriod(prev)
-	K := vh.Pick(2, 5)
+	K := vh.Pick(3, 5)
 	stuck := false
 	job := 0
-	for _, kind := range c12kinds {
+	// one child process per group of scenario kinds: the known UDP-listener crash (DESIGN §5 F9) kills the
+	// process it happens in, so the kinds that can trigger it are isolated from the others
+	groups := [][]string{{"custom", "blocked-writer"}, {"tcp-server"}, {"tcp-client", "tcp-client-refused"}, {"udp-client", "udp-broadcast"},
+		{"serial", "serial-backoff"}, {"udp-server"}, {"mixed"}}
+	kinds := c12kinds
+	byGroup := nsh == len(groups)
+	if byGroup {
+		kinds = groups[shard]
+	}
+	for _, kind := range kinds {
 		if stuck {
 			break
 		}
@@ -591,7 +621,7 @@ func TestC12(t *testing.T) {
 		for _, p := range points {
 			for k := 1; k <= K && k <= hits[p]; k++ {
 				job++
-				if job%nsh != shard {
+				if !byGroup && job%nsh != shard {
 					continue
 				}
 				kk := k
@@ -620,9 +650,9 @@ func TestC12(t *testing.T) {
 			}
 		}
 		// a few closes at random instants with everything on
-		for i := 0; i < vh.Pick(2, 20) && !stuck; i++ {
+		for i := 0; i < vh.Pick(6, 20) && !stuck; i++ {
 			job++
-			if job%nsh != shard {
+			if !byGroup && job%nsh != shard {
 				continue
 			}
 			c12placement(rep, r, kind, "", 0, i%2 == 0, 3, 0)
@@ -635,8 +665,8 @@ func TestC12(t *testing.T) {
 		c12failedInit(rep, r)
 	}
 	rep.Sample(map[string]interface{}{"placement": "scenario=tcp-server point=ch.reader.afterRead occurrence=2 consumer=stopped writers=3 release_delay=200us"})
-	rep.Floor("placements", 40)
-	rep.Floor("placements_reached_trap", 20)
+	rep.Floor("placements", 10)
+	rep.Floor("placements_reached_trap", 4)
 }
 
 var stuckFlag int32
@@ -668,6 +698,72 @@ func c12failedInit(rep *vh.Report, r *vh.RNG) {
 		{"broadcast-invalid", func() gomavlib.EndpointConf { return gomavlib.EndpointUDPBroadcast{BroadcastAddress: "1.2.3:x"} }, nil},
 		{"serial-open-error", func() gomavlib.EndpointConf { return gomavlib.EndpointSerial{Device: "/dev/none", Baud: 9600} }, nil},
 		{"invalid-dialect", nil, &dialect.Dialect{Version: 1, Messages: []message.Message{&MessageVfUid{}, &MessageDup{}}}},
+	}
+	// configurations with out-of-range option values: whether Initialize accepts them is its own business, but IF it
+	// returns an error nothing may be left behind
+	odd := []func(n *gomavlib.Node){
+		func(n *gomavlib.Node) { n.StreamRequestEnable, n.StreamRequestFrequency = true, 100000 },
+		func(n *gomavlib.Node) { n.StreamRequestEnable, n.StreamRequestFrequency = true, -5 },
+		func(n *gomavlib.Node) { n.HeartbeatSystemType, n.HeartbeatAutopilotType = 1<<20, -3 },
+		func(n *gomavlib.Node) {
+			n.OutComponentID = 255
+			n.IdleTimeout = -1
+			n.ReadTimeout = -1
+			n.WriteTimeout = -1
+		},
+		func(n *gomavlib.Node) {
+			n.StreamRequestEnable = true
+			n.Dialect = &dialect.Dialect{Version: -7, Messages: testDialect.Messages}
+		},
+	}
+	for oi, mod := range odd {
+		tp, up := freeTCPPort(), freeUDPPort()
+		tr := fake.NewTransport("odd")
+		node := &gomavlib.Node{Endpoints: []gomavlib.EndpointConf{gomavlib.EndpointCustom{ReadWriteCloser: tr},
+			gomavlib.EndpointTCPServer{Address: fmt.Sprintf("127.0.0.1:%d", tp)}, gomavlib.EndpointUDPServer{Address: fmt.Sprintf("127.0.0.1:%d", up)}},
+			Dialect: testDialect, OutVersion: gomavlib.V2, OutSystemID: 1}
+		mod(node)
+		rep.Eval(1)
+		rep.Count("odd_option_configs", 1)
+		var ierr error
+		func() {
+			defer func() {
+				if p := recover(); p != nil {
+					ierr = fmt.Errorf("panic: %v", p)
+					rep.Observe(fmt.Sprintf("Initialize panics on out-of-range options (configuration %d): %v", oi, p))
+				}
+			}()
+			ierr = node.Initialize()
+		}()
+		if ierr == nil {
+			cdone := make(chan struct{})
+			go func() { node.Close(); close(cdone) }()
+			select {
+			case <-cdone:
+			case <-time.After(10 * time.Second):
+				rep.Violation("what=close-stuck@odd-options", fmt.Sprintf("Node.Close did not return for a node initialized with out-of-range options (configuration %d)", oi), nil)
+				return
+			}
+			continue
+		}
+		rep.Count("odd_option_configs_refused", 1)
+		wit := map[string]interface{}{"case": fmt.Sprintf("odd-options-%d", oi), "error": ierr.Error()}
+		if ln, err := net.Listen("tcp4", fmt.Sprintf("127.0.0.1:%d", tp)); err != nil {
+			rep.Violation("what=init-leak:odd-options", "a failed Initialize left a TCP listener behind", wit)
+		} else {
+			ln.Close()
+		}
+		if pc, err := net.ListenPacket("udp4", fmt.Sprintf("127.0.0.1:%d", up)); err != nil {
+			rep.Violation("what=init-leak:odd-options", "a failed Initialize left a UDP socket behind", wit)
+		} else {
+			pc.Close()
+		}
+		left := waitNoLibGoroutines(func(g string) bool {
+			return strings.Contains(g, "verifharness/nodeprops") && !strings.Contains(g, "gomavlib/v3.(*")
+		}, 20*time.Millisecond)
+		for _, g := range left {
+			rep.Violation("what=init-leak:odd-options", "a failed Initialize left a goroutine behind: "+topFrame(g), map[string]interface{}{"goroutine": g})
+		}
 	}
 	for _, c := range cases {
 		for pos := 0; pos < 3; pos++ {
